@@ -150,12 +150,14 @@ Proof. vm_compute. split; reflexivity. Qed.
 (* ================================================================ k-medoids (kmedoids.rs)
    d = distance function, chunks = how rayon splits the data in fold_reduce, ord = hash order of updated medoids *)
 Theorem C17_kmedoids_contract : forall d chunks ord data k,
-  (forall l, Permutation (ord l) l) -> concat (chunks data) = data ->
-  data <> [] -> k <= length (nodup Nat.eq_dec data) ->
+  (forall l, Permutation (ord l) l) ->
   Permutation (flat_map snd (create_kmedoids d chunks ord data k)) data
   /\ (forall med c p med' c', In (med, c) (create_kmedoids d chunks ord data k) -> In p c ->
                               In (med', c') (create_kmedoids d chunks ord data k) -> (d p med <= d p med')%Z).
 Proof. exact create_kmedoids_contract. Qed.
+(* FULL k-medoids clause since repair ba4acde of /repo (finding C17-F3): any k (also 0 and k above the number of distinct
+   points), any data (also empty / repeated points), any chunking, any distance function; the only hypothesis is that the
+   hash iteration order is an arrangement of the map's entries. *)
 
 (* the nearest-medoid clause needs no hypothesis at all *)
 Theorem C17_kmedoids_nearest : forall d chunks ord data k med c p med' c',
@@ -163,15 +165,28 @@ Theorem C17_kmedoids_nearest : forall d chunks ord data k med c p med' c',
   In (med', c') (create_kmedoids d chunks ord data k) -> (d p med <= d p med')%Z.
 Proof. exact create_kmedoids_nearest. Qed.
 
-(* without k <= #distinct points the partition clause fails: everything is dropped (finding C17-F3) *)
-Theorem C17_kmedoids_partition_refuted : forall d ord p,
-  create_kmedoids d halves ord [p] 2 = [] /\ ~ Permutation (flat_map snd (create_kmedoids d halves ord [p] 2)) [p].
-Proof. exact kmedoids_k_exceeds. Qed.
+(* the former finding C17-F3, restated about the function BEFORE repair ba4acde (create_kmedoids_prefix): with k above the
+   number of distinct points everything was dropped *)
+Theorem C17_kmedoids_partition_prefix_refuted : forall d ord p,
+  create_kmedoids_prefix d halves ord [p] 2 = []
+  /\ ~ Permutation (flat_map snd (create_kmedoids_prefix d halves ord [p] 2)) [p].
+Proof. exact kmedoids_k_exceeds_prefix. Qed.
 
-(* create_hierarchical_kmedoids on a single point hits medoid.expect("should be set") (finding C17-F2) *)
-Theorem C17_hkmedoids_single_point_refuted : forall d chunks ord p n,
-  create_hierarchical_kmedoids d chunks ord [p] (S n) = HPanic.
-Proof. exact hkmedoids_single_point_panics. Qed.
+(* the former finding C17-F2, restated about the function BEFORE repair 8db29ea: a single point hit
+   medoid.expect("should be set") *)
+Theorem C17_hkmedoids_single_point_prefix_refuted : forall d chunks ord p n,
+  create_hierarchical_kmedoids_prefix d chunks ord [p] (S n) = HPanic.
+Proof. exact hkmedoids_single_point_prefix_panics. Qed.
+
+(* repaired code: a single point gives the empty hierarchy (what every input without a cluster of more than two points
+   gives), and expect("should be set") is unreachable for every input *)
+Theorem C17_hkmedoids_single_point : forall d chunks ord p n,
+  create_hierarchical_kmedoids d chunks ord [p] n = HOk [].
+Proof. exact hkmedoids_single_point. Qed.
+
+Theorem C17_hkmedoids_never_panics : forall d chunks ord data tiers,
+  create_hierarchical_kmedoids d chunks ord data tiers <> HPanic.
+Proof. exact hkmedoids_no_panic. Qed.
 
 Theorem C17_kmedoids_checker_sound : forall dm data m,
   check_kmedoids dm data m = [] <->
